@@ -20,9 +20,18 @@ fn scenario_for(base: u64, scen: u64) -> (Scenario, usize, Vec<String>) {
     p.always_pm = 0;
     p.max_work_ms = *rng.pick(&[0, 5]);
     p.out_file_pm = 500;
-    let g = gen_graph(rng, &p);
+    let mut g = gen_graph(rng, &p);
+    // stratified: even scenarios start from an empty project (the killed
+    // command creates the state database) and contain at least one
+    // checksummed target; odd scenarios kill a rebuild of generated files
+    let fresh = scen % 2 == 0;
+    if fresh && !g.csum.iter().any(|c| *c) && g.targets.len() >= 2 {
+        let i = rng.below(g.targets.len() as u64 - 1) as usize;
+        g.rules[i].1.stmts.push(Stmt::Stamp { only: Vec::new() });
+        g.csum[i] = true;
+    }
     let mut sc = g.scenario("c10");
-    if rng.chance(1, 2) {
+    if !fresh {
         // previously generated files exist and an input changed
         sc.history
             .push(Step::Cmds(vec![redo_cmd(rng, "redo-ifchange", &[g.top()], 2, 0)]));
@@ -272,9 +281,19 @@ impl Property for C10 {
         }
         if !v.is_empty() {
             if let Some(g) = rec.groups.iter().find(|g| g.step_idx == bg) {
-                let w = open_windows(g);
-                if let Some(first) = w.first() {
-                    let kind = if first.starts_with("rename-commit") {
+                // a window on a target that had never been built before the
+                // killed command is tagged `rename-commit-first:`
+                let existed = |t: &str| bg > 0 && rec.fs_after[bg - 1].contains_key(t);
+                let w: Vec<String> = open_windows(g)
+                    .into_iter()
+                    .map(|x| match x.strip_prefix("rename-commit:") {
+                        Some(t) if !existed(t) => format!("rename-commit-first:{}", t),
+                        _ => x,
+                    })
+                    .collect();
+                if !w.is_empty() {
+                    // an open rename window explains more than an open stamp window
+                    let kind = if w.iter().any(|x| x.starts_with("rename-commit")) {
                         "interrupted-rename-commit"
                     } else {
                         "interrupted-stamp-commit"
